@@ -127,6 +127,26 @@ Fixpoint nl_translate (s : text) : text :=
 Definition run_chunks_textmode (d : text) (raw_chunks : list text) : text * list text :=
   run_chunks d [] (map nl_translate raw_chunks).
 
+(* ---- repaired IO layer: bytes are decoded incrementally (io.IncrementalNewlineDecoder, translate=True,
+   final=False): a CR at the end of what was read is held back until the next read shows what follows it *)
+Fixpoint ends_cr (s : text) : bool :=
+  match s with
+  | [] => false
+  | c :: s' => match s' with [] => Ascii.eqb c CR | _ :: _ => ends_cr s' end
+  end.
+Definition strip_cr (s : text) : text := if ends_cr s then removelast s else s.
+Definition nl_inc (pend : bool) (raw : text) : bool * text :=
+  let s := (if pend then [CR] else []) ++ raw in
+  (ends_cr s, nl_translate (strip_cr s)).
+Fixpoint decode_all (pend : bool) (raws : list text) : bool * list text :=
+  match raws with
+  | [] => (pend, [])
+  | r :: rs => let '(p1, o) := nl_inc pend r in
+               let '(p2, os) := decode_all p1 rs in (p2, o :: os)
+  end.
+Definition run_chunks_textmode_fixed (d : text) (raw_chunks : list text) : text * list text :=
+  run_chunks d [] (snd (decode_all false raw_chunks)).
+
 (* ---- boolean helpers for the correspondence ---- *)
 Fixpoint text_eqb (a b : text) : bool :=
   match a, b with
